@@ -111,10 +111,13 @@ mod phases {
 
     macro_rules! note {
         ($notification:ident, $method:path, $doctx:expr) => {{
-            let args = serde_json::from_value($notification.params)?;
-            $method($doctx, args)
-                .await
-                .wrap_err("Cannot process notification")?;
+            match serde_json::from_value($notification.params) {
+                Ok(args) => $method($doctx, args)
+                    .await
+                    .wrap_err("Cannot process notification")?,
+                // a notification cannot be answered
+                Err(err) => log::error!("Invalid params of notification: {}", err),
+            }
         }};
     }
 
